@@ -177,7 +177,7 @@ def dispatch(ctx, tk):
                 facts = facts_at(fa, n)
                 okb = any(t.k == "cmp" and t.a[0] == "==" and any(y.k == "global" and y.a[0] == "bool" for y in walk(t)) and truth for t, truth, _ in facts)
     ctx.decide("C15.f", f, "a dense boolean mask is converted to positions before the lookup", True if okb else None, key="bool-mask", engine="E6")
-    sinks = [n for n, c in find_calls(fa, lambda c: c.a[0].k == "attr" and c.a[0].a[1] == "_getitem_bool")]
+    sinks = [(n, c) for n, c in find_calls(fa, lambda c: c.a[0].k == "attr" and c.a[0].a[1] == "_getitem_bool")]
 
     def m(t):
         if t.k == "cmp" and t.a[0] in ("==", "!="):
